@@ -149,6 +149,14 @@ var descGens = []descGen{
 			}
 			o = append(o, &astits.Descriptor{Tag: 0x45, VBIData: d})
 		}
+		// every ordered pair of data_service_ids (line-carrying and reserved ones mixed), and triples around a
+		// reserved id: what one service carries must not depend on the services before it
+		for _, a := range ids {
+			for _, b := range ids {
+				o = append(o, &astits.Descriptor{Tag: 0x45, VBIData: &astits.DescriptorVBIData{Services: []*astits.DescriptorVBIDataService{mk(a, 2), mk(b, 1)}}})
+			}
+			o = append(o, &astits.Descriptor{Tag: 0x45, VBIData: &astits.DescriptorVBIData{Services: []*astits.DescriptorVBIDataService{mk(1, 1), mk(a, 3), mk(3, 0), mk(a, 0), mk(4, 2)}}})
+		}
 		return
 	}},
 	{0x46, "VBITeletext", func(bool) []*astits.Descriptor { return teletextGen(0x46) }},
